@@ -18,6 +18,7 @@ import (
 	"encoding/json"
 	"fmt"
 	"net/http"
+	"net/url"
 	"strings"
 
 	"github.com/google/martian/v3"
@@ -63,12 +64,15 @@ func (v *verifier) ModifyRequest(req *http.Request) error {
 		return nil
 	}
 
-	if err := req.ParseForm(); err != nil {
+	// The expectation is about the query string: the URL is parsed on its own.
+	// req.ParseForm would merge (and consume) a url-encoded request body.
+	form, perr := url.ParseQuery(req.URL.RawQuery)
+	if perr != nil {
 		err := fmt.Errorf("request(%v) parsing failed; could not parse query parameters", req.URL)
 		v.err.Add(err)
 		return nil
 	}
-	vals, ok := req.Form[v.key]
+	vals, ok := form[v.key]
 	if !ok {
 		err := fmt.Errorf("request(%v) param verification error: key %v not found", req.URL, v.key)
 		v.err.Add(err)
